@@ -9,7 +9,7 @@ PROP = {'counts': {'quick': 2, 'thorough': 20},
          'heartbeatManager / replication.Manager with the locks held at each access; '
          'ReplLocksFacts.repl_fields_protected, repl_sessions_under_primary_mu, repl_lock_order_acyclic, '
          'repl_no_self_nesting by vm_compute: a map write of the session map under a shared lock, a new lock '
-         'nesting cycle or a re-acquired replication lock breaks them) AND the pkg/replication rows of gen/LockLeaks.v (gofacts/lockleaks.go: no way out of a function or loop iteration with an explicitly taken mutex still locked, no Unlock on a path that has released it already - the runtime would abort the primary; ReplLocksFacts.repl_locks_released_exactly_once) AND the pkg/replication rows of gen/NilChecks.v (gofacts/nilchecks.go: results of look-up functions - one pointer result, nil for 'not there', e.g. Primary.getSession - are compared with nil before any other use; ReplLocksFacts.repl_lookups_tested_before_use). Dynamic: one case = one dynamic probe: a real primary (engine + replication.Manager, heartbeat interval/timeout '
+         'nesting cycle or a re-acquired replication lock breaks them) AND the pkg/replication rows of gen/LockLeaks.v (gofacts/lockleaks.go: no way out of a function or loop iteration with an explicitly taken mutex still locked, no Unlock on a path that has released it already - the runtime would abort the primary; ReplLocksFacts.repl_locks_released_exactly_once) AND the pkg/replication rows of gen/NilChecks.v (gofacts/nilchecks.go: results of look-up functions - one pointer result, nil when the thing is not there, e.g. Primary.getSession - are compared with nil before any other use; ReplLocksFacts.repl_lookups_tested_before_use). Dynamic: one case = one dynamic probe: a real primary (engine + replication.Manager, heartbeat interval/timeout '
          'shortened through PrimaryConfig.HeartbeatConfig), real healthy replicas, and one misbehaving raw gRPC '
          'client of the replication service (never reads its stream / reads but never acknowledges / reads '
          'slowly / rotated log with one lagging and two continuously acknowledging replicas / connection reset through a TCP forwarder / connection frozen through the forwarder / none: '
